@@ -26,8 +26,9 @@ variable {V I : Type}
 
 /-! ### general theorems -/
 
-/-- Whatever was read before, in whatever order, a read returns what a freshly built object
-    returns when the result is read first. -/
+/-- Whatever was read before (successfully or not), in whatever order, a read has the outcome it has
+    on a freshly built object when the result is read first: the same value, or an exception
+    (`none`) exactly when the fresh read raises. -/
 theorem order_independent (spec : Spec) (present : List Nat) (sem : Sem V I) (dv : List Nat)
     (cp : Nat → Option V) (x : I) (hN : NoInterference spec present)
     (hp : ∀ p ∈ present, ((construct sem dv cp x).params p).isSome = true)
@@ -40,16 +41,75 @@ theorem order_independent (spec : Spec) (present : List Nat) (sem : Sem V I) (dv
   rw [(readF_correct spec sem _ x present hN (g + 1) g _ (Nat.lt_succ_self g) ih).2,
       (readF_correct spec sem _ x present hN (g + 1) g _ (Nat.lt_succ_self g) i0).2]
 
-/-- … and that value is the function `ideal` of the input and the constructor parameters only. -/
+/-- VALUE-LEVEL version.  Suppose the getters see their parameters only up to a normalisation `norm`
+    (e.g. `None` and the default it stands for are the same to them) and every fill-if-missing write
+    of a `benign` slot stores a value that is canonically the missing one (`Blind`).  Then such
+    writes may hit slots that `__init__` left empty and that other getters read: the outcome of every
+    read is still that of a fresh object.  (`FilterAnalyzer` with `ub=None`: `filtered_fourier`
+    stores the Nyquist frequency in `ub`, which the other filters take for `None` anyway.) -/
+theorem order_independent_upto (norm : Nat → Option V → Option V) (benign : List Nat)
+    (spec : Spec) (present : List Nat) (sem : Sem V I) (dv : List Nat)
+    (cp : Nat → Option V) (x : I) (hN : NoInterference spec (present ++ benign))
+    (hB : Blind spec sem norm benign)
+    (hp : ∀ p ∈ present, ((construct sem dv cp x).params p).isSome = true)
+    (h : List Nat) (g : Nat) :
+    (read spec sem g (run spec sem h (construct sem dv cp x))).2
+      = (read spec sem g (construct sem dv cp x)).2 := by
+  have i0 : InvN norm spec sem (construct sem dv cp x).params x present (construct sem dv cp x) :=
+    ⟨rfl, fun _ _ _ _ => rfl, fun g v h => by simp [construct] at h, hp⟩
+  have ih := run_invN norm benign spec sem _ x present hN hB h _ i0
+  unfold OneTime.read
+  rw [(readF_correctN norm benign spec sem _ x present hN hB (g + 1) g _ (Nat.lt_succ_self g) ih).2,
+      (readF_correctN norm benign spec sem _ x present hN hB (g + 1) g _ (Nat.lt_succ_self g) i0).2]
+
+/-- … and that outcome is the function `ideal` of the input and the constructor parameters only. -/
 theorem order_independent_value (spec : Spec) (present : List Nat) (sem : Sem V I) (dv : List Nat)
     (cp : Nat → Option V) (x : I) (hN : NoInterference spec present)
     (hp : ∀ p ∈ present, ((construct sem dv cp x).params p).isSome = true)
     (h : List Nat) (g : Nat) :
     (read spec sem g (run spec sem h (construct sem dv cp x))).2
-      = some (ideal spec sem (construct sem dv cp x).params x g) := by
+      = ideal spec sem (construct sem dv cp x).params x g := by
   have i0 := construct_inv spec sem dv cp x present hp
   have ih := run_inv spec sem _ x present hN h _ i0
   exact (readF_correct spec sem _ x present hN (g + 1) g _ (Nat.lt_succ_self g) ih).2
+
+/-- A read that raises does not memoise (the next read runs the getter again) … -/
+theorem raising_read_stores_nothing (spec : Spec) (sem : Sem V I) (hS : Sorted spec) (g : Nat)
+    (s : St V I) (h : (read spec sem g s).2 = none) : (read spec sem g s).1.cache g = none :=
+  failed_read_stores_nothing spec sem hS g s h
+
+/-- … and, when everything it reads is stored already, leaves the object exactly as it was
+    (any table; in general only the reads of its dependencies have happened). -/
+theorem raising_read_changes_nothing (spec : Spec) (sem : Sem V I) (g : Nat) (s : St V I)
+    (hdeps : ∀ d ∈ (eff spec g).deps, (s.cache d).isSome = true)
+    (h : (read spec sem g s).2 = none) : (read spec sem g s).1 = s :=
+  failed_read_changes_nothing spec sem g s hdeps h
+
+/-- A getter raises after a history exactly when it raises on a fresh object. -/
+theorem raising_is_order_independent (spec : Spec) (present : List Nat) (sem : Sem V I)
+    (dv : List Nat) (cp : Nat → Option V) (x : I) (hN : NoInterference spec present)
+    (hp : ∀ p ∈ present, ((construct sem dv cp x).params p).isSome = true)
+    (h : List Nat) (g : Nat) :
+    (read spec sem g (run spec sem h (construct sem dv cp x))).2 = none ↔
+      (read spec sem g (construct sem dv cp x)).2 = none := by
+  rw [order_independent spec present sem dv cp x hN hp h g]
+
+/-- Interference is observable (one step, every `Sem`): an in-place rewrite listed in the table
+    changes the result already handed out whenever the rewrite is not the identity on it. -/
+theorem interference_observable_clobber (spec : Spec) (sem : Sem V I) (hS : Sorted spec) (g k : Nat)
+    (s : St V I) (v : V) (hk : s.cache k = some v) (hg : s.cache g = none)
+    (hkg : k ∈ (eff spec g).clobbers)
+    (hdeps : ∀ d ∈ (eff spec g).deps, (s.cache d).isSome = true)
+    (hnr : ∀ dvs, sem.raises g dvs ((eff spec g).reads.map s.params)
+      (inputArg (eff spec g) s.input) = false)
+    (hC : sem.C g k v ≠ v) :
+    (read spec sem g s).1.cache k ≠ s.cache k ∧
+    (read spec sem k (read spec sem g s).1).2 ≠ (read spec sem k s).2 := by
+  obtain ⟨a, b⟩ := clobber_observable spec sem hS g k s v hk hg hkg hdeps hnr
+  refine ⟨by rw [a, hk]; simpa using hC, ?_⟩
+  rw [b]
+  have : (read spec sem k s).2 = some v := by unfold OneTime.read readF; simp [hk]
+  rw [this]; simpa using hC
 
 /-- A second read returns the stored value and changes nothing (no recomputation): any table. -/
 theorem computed_once_memo (spec : Spec) (sem : Sem V I) (g : Nat) (s : St V I) (v : V)
@@ -139,6 +199,8 @@ theorem SNRAnalyzer_noInterference : okAll spec_SNRAnalyzer := by decide
 theorem NormalizationAnalyzer_noInterference : okAll spec_NormalizationAnalyzer := by decide
 theorem EventRelatedAnalyzer_noInterference : okAll spec_EventRelatedAnalyzer := by decide
 theorem Epochs_noInterference : okAll spec_Epochs := by decide
+/-- `TimeSeries.time` (the one-time attribute of the series themselves) -/
+theorem TimeSeries_noInterference : okAll spec_TimeSeries := by decide
 
 /-! #### FilterAnalyzer: `filtered_fourier` fills `ub` when it is None, and the other filters read
 `ub`.  With `ub` given the side condition holds; with `ub=None` it does not (the readers treat None
@@ -148,6 +210,15 @@ theorem FilterAnalyzer_partial :
     ∀ cfg ∈ allCfgs spec_FilterAnalyzer.flagNames.length, ¬ cfg.contains f_FilterAnalyzer_none_ub →
       noInterferenceB (spec_FilterAnalyzer.resolve cfg) (spec_FilterAnalyzer.present cfg) = true := by
   decide
+
+/-- value level: with `ub` declared benign (see `order_independent_upto`) every configuration of
+    FilterAnalyzer — `ub=None` included — satisfies the side condition.  What remains assumed, and is
+    monitored on every run by the fresh-object oracle, is `Blind` for the real getters: `fir`, `iir`,
+    `filtered_boxcar` treat `ub=None` as the Nyquist frequency, which is what `filtered_fourier` stores. -/
+theorem FilterAnalyzer_noInterference_upto_ub :
+    ∀ cfg ∈ allCfgs spec_FilterAnalyzer.flagNames.length,
+      noInterferenceB (spec_FilterAnalyzer.resolve cfg)
+        (spec_FilterAnalyzer.present cfg ++ [s_FilterAnalyzer_ub]) = true := by decide
 
 theorem FilterAnalyzer_ubNone_counterexample :
     noInterferenceB (spec_FilterAnalyzer.resolve [f_FilterAnalyzer_none_ub])
@@ -163,6 +234,7 @@ theorem SeedCoherenceAnalyzer_noInterference : okAll spec_SeedCoherenceAnalyzer 
 /-- a semantics over numbers on which the effects are visible -/
 def numSem : Sem Nat Nat :=
   { F := fun g dvs pvs x => 1000 * (g + 1) + dvs.sum + (pvs.map (fun o => o.getD 7)).sum + x.getD 0
+    raises := fun _ _ _ _ => false
     W := fun g p _ _ _ => 50 + g + p
     C := fun _ _ v => v + 1
     CI := fun _ x => x + 1
@@ -215,5 +287,19 @@ example :
 
 example : (read (spec_GrangerAnalyzer.resolve []) numSem g_GrangerAnalyzer_causality_xy
     (construct numSem [] (fun p => some p) 3)).2 ≠ none := by decide
+
+/-- a semantics in which GrangerAnalyzer's `_model` raises: every result that needs it raises, before
+    and after any history; `frequencies` does not -/
+def numSemR : Sem Nat Nat := { numSem with raises := fun g _ _ _ => g == g_GrangerAnalyzer__model }
+
+example :
+    let spec := spec_GrangerAnalyzer.resolve []
+    let s0 := construct numSemR [] (fun p => some p) 3
+    (read spec numSemR g_GrangerAnalyzer_causality_xy s0).2 = none ∧
+    (read spec numSemR g_GrangerAnalyzer_causality_xy
+      (run spec numSemR [g_GrangerAnalyzer_frequencies, g_GrangerAnalyzer_order] s0)).2 = none ∧
+    (read spec numSemR g_GrangerAnalyzer_causality_xy s0).1.cache g_GrangerAnalyzer__model = none ∧
+    (read spec numSemR g_GrangerAnalyzer_frequencies
+      (run spec numSemR [g_GrangerAnalyzer_causality_xy] s0)).2 ≠ none := by decide
 
 end Nitime.C13.Props
